@@ -14,7 +14,7 @@ EXTENDS Cloud, TLC, SequencesExt
 CONSTANTS N,            \* nodes 1..N (address of node n is n)
           MaxTime,      \* ticks explored
           Silent,       \* a node that may fall silent or crash and restart (0: nobody)
-          FaultKind,    \* "silent" | "restart"
+          FaultKind,    \* "silent" | "restart" | "lossy" (any datagram may be lost, at most MaxLoss of them)
           DialKind      \* "connect": one-shot dials, "reconnect": configured peers
 Nodes == 1..N
 
@@ -23,8 +23,9 @@ TOf(n) == IF n = 1 THEN 3 ELSE IF n = 2 THEN 5 ELSE 4
 Cfg(n) == [self |-> n, nid |-> <<n, 0>>, T |-> TOf(n), ka |-> -1, adv |-> {}, key |-> "k", trusted |-> {"k"},
            claims |-> <<"r" \o ToString(n)>>, plain |-> FALSE, learn |-> FALSE, bc |-> FALSE]
 
-VARIABLES now, st, net, turn, silentFrom
-vars == <<now, st, net, turn, silentFrom>>
+VARIABLES now, st, net, turn, silentFrom, lost
+vars == <<now, st, net, turn, silentFrom, lost>>
+MaxLoss == 3
 \* turn: 0 = datagrams are being delivered, n > 0 = node n is the next to do its housekeeping in this tick
 
 Fresh(n) == [peers |-> {}, pend |-> {}, claims |-> {}, own |-> {n}, np |-> 0, nr |-> OWN_RESET,
@@ -44,7 +45,7 @@ Pings(from, out, except) == {Msg(from, out[i][1], "ping", NoInfo) : i \in {i \in
 \* what a silent node sends is lost
 Send(from, base, ms) == IF silentFrom > 0 /\ from = Silent /\ FaultKind = "silent" THEN base ELSE base \cup ms
 
-Init == /\ now = 0 /\ net = {} /\ turn = 1 /\ silentFrom = 0
+Init == /\ now = 0 /\ net = {} /\ turn = 1 /\ silentFrom = 0 /\ lost = 0
         /\ st = [n \in Nodes |-> IF DialKind = "connect" /\ n > 1 THEN Dial(Fresh(n), n - 1).s ELSE Fresh(n)]
 
 \* ------------------------------------------------------------------ a tick: every node does its housekeeping in turn
@@ -56,14 +57,14 @@ Hk(n) ==
      /\ st' = [st EXCEPT ![n] = h.s]
      /\ net' = Send(n, net, pings \cup infos)
   /\ turn' = IF n = N THEN 0 ELSE n + 1
-  /\ UNCHANGED <<now, silentFrom>>
+  /\ UNCHANGED <<now, silentFrom, lost>>
 
 \* ------------------------------------------------------------------ delivery of one datagram (any order)
 Apply(m, d, res, info, reply) ==
   LET r == Recv(st[m], Cfg(m), d.from, d.kind \in {"ping", "pong", "peng"}, res, info, now) IN
   /\ st' = [st EXCEPT ![m] = r.s]
   /\ net' = Send(m, net \ {d}, Pings(m, r.out, d.from) \cup reply)
-  /\ UNCHANGED <<now, turn, silentFrom>>
+  /\ UNCHANGED <<now, turn, silentFrom, lost>>
 
 Deliver(d) ==
   /\ turn = 0 /\ d \in net
@@ -77,7 +78,7 @@ Deliver(d) ==
                  THEN \* simultaneous open: the smaller identity becomes the responder
                       /\ st' = [st EXCEPT ![m].pend = (@ \ {q}) \cup {NewResponder(d.from)}]
                       /\ net' = Send(m, net \ {d}, {Msg(m, d.from, "pong", InfoOf(m))})
-                      /\ UNCHANGED <<now, turn, silentFrom>>
+                      /\ UNCHANGED <<now, turn, silentFrom, lost>>
             ELSE IF route = "pending" /\ q.st = STAGE_PENG
                  THEN Apply(m, d, "reply", NoInfo, {Msg(m, d.from, "pong", InfoOf(m))})
             ELSE Apply(m, d, "err", NoInfo, {})
@@ -95,21 +96,28 @@ Deliver(d) ==
 \* the tick ends when everything is delivered
 Tick == /\ turn = 0 /\ net = {} /\ now < MaxTime
         /\ now' = now + 1 /\ turn' = 1
-        /\ UNCHANGED <<st, net, silentFrom>>
+        /\ UNCHANGED <<st, net, silentFrom, lost>>
 
 \* the chosen node falls silent at the start of a tick (everything it sends from then on is lost)
 FallSilent == /\ Silent > 0 /\ FaultKind = "silent" /\ silentFrom = 0 /\ turn = 0 /\ net = {} /\ now > 0
               /\ silentFrom' = now
-              /\ UNCHANGED <<now, st, net, turn>>
+              /\ UNCHANGED <<now, st, net, turn, lost>>
 \* the chosen node crashes and comes back at once on the same address with empty tables, dialling its bootstrap peer
 \* (or its successor when it is node 1); the others still hold their entries for it
 Restart == /\ Silent > 0 /\ FaultKind = "restart" /\ silentFrom = 0 /\ turn = 0 /\ net = {} /\ now > 0
            /\ silentFrom' = now
            /\ st' = [st EXCEPT ![Silent] = Dial([Fresh(Silent) EXCEPT !.np = now, !.nr = now + OWN_RESET, !.rc = <<>>],
                                                 IF Silent > 1 THEN Silent - 1 ELSE 2).s]
-           /\ UNCHANGED <<now, net, turn>>
+           /\ UNCHANGED <<now, net, turn, lost>>
+
+\* the network loses a datagram (only in the lossy configurations; the first loss marks the run as faulty)
+Lose(d) == /\ FaultKind = "lossy" /\ turn = 0 /\ d \in net /\ lost < MaxLoss
+           /\ net' = net \ {d} /\ lost' = lost + 1
+           /\ silentFrom' = IF silentFrom = 0 THEN now + 1 ELSE silentFrom
+           /\ UNCHANGED <<now, st, turn>>
 
 Next == \/ \E n \in Nodes : Hk(n)
+        \/ \E d \in net : Lose(d)
         \/ \E d \in net : Deliver(d)
         \/ Tick \/ FallSilent \/ Restart
 Spec == Init /\ [][Next]_vars
